@@ -57,6 +57,11 @@ theorem api_types_are_tracked :
     only read. -/
 theorem cast_writes_nothing_shared : Gen.castWrites = [] := by decide
 
+/-- Neither package keeps a package-level variable of slice, map, pointer, channel, array or struct type: there is no
+    memory that every goroutine reaches and that a caller who was handed a value could write to (a `[]byte` or a map
+    returned from such a variable would be shared by every row of every goroutine). A new one re-opens this. -/
+theorem no_reference_typed_package_variable : Gen.refGlobals = [] := by decide
+
 /-- The invariant of every reachable state: memory unchanged, every remaining operation
     read-only, and each goroutine's results are those of the operations it has executed, as
     if it ran alone on the initial memory. -/
